@@ -516,8 +516,13 @@ impl<Sink: TokenSink> XmlTokenizer<Sink> {
     }
 
     fn discard_char(&self, input: &BufferQueue) {
-        let c = self.get_char(input);
-        assert!(c.is_some());
+        // peek() deals in un-processed characters (no newline normalization), so a
+        // character found with peek() must be discarded without normalization too.
+        if self.reconsume.get() {
+            self.reconsume.set(false);
+        } else {
+            input.next();
+        }
     }
 
     fn unconsume(&self, input: &BufferQueue, buf: StrTendril) {
